@@ -48,6 +48,8 @@ def gen_recipe(rng, fmt, tier="quick"):
         "lon0": rng.choice([150.0, 0.0, 170.5, 359.0 - 6, -20.0]), "lat0": rng.choice([-30.0, 0.0, 45.25, -75.0]),
         "dlon": rng.choice([0.25, 0.5, 1.0]), "dlat": rng.choice([0.25, 0.5, 1.0]),
     }
+    if rng.random() < 0.25:
+        r["origin_site"] = True
     if rng.random() < 0.08 and r["dir"]["dir0"] == 0.0 and base != "funwave":
         r["dir"]["north360"] = True
     if rng.random() < 0.25:
@@ -287,6 +289,8 @@ def features(st, history):
         f.append("north-as-360")
     if r.get("time_irregular") and nt > 2:
         f.append("uneven-time-steps")
+    if r.get("origin_site") and "site" in dims:
+        f.append("site-at-origin" if (r.get("lon0") == 0.0 and r.get("lat0") == 0.0) else "site-at-lon0-lat0")
     if r.get("with_winds") and not st["fmt"].startswith("octopus"):
         f.append("with-winds")
     if r["data"]["kind"] in ("huge", "tiny", "single_bin"):
@@ -325,6 +329,16 @@ def _positions(ds, recipe):
     else:
         pos_dims = []
     return e.transpose(*(lead + [d for d in pos_dims if d in e.dims] + spec_dims)), lead, [d for d in pos_dims if d in e.dims], spec_dims
+
+
+def _far(a, b, tol):
+    """True unless every |a - b| <= tol; a NaN that was not written counts as far."""
+    if a.shape != b.shape:
+        return True
+    both_nan = np.isnan(a) & np.isnan(b)
+    with np.errstate(invalid="ignore"):
+        ok = (np.abs(a - b) <= tol) | both_nan
+    return not bool(ok.all())
 
 
 def compare_roundtrip(fmt, recipe, exp, got, _depth=0, lonlat=None):
@@ -376,7 +390,7 @@ def compare_roundtrip(fmt, recipe, exp, got, _depth=0, lonlat=None):
     if "lat" in ee.dims and "lon" in ee.dims:
         for c in ("lat", "lon"):
             gv, ev = np.asarray(got[c].values, float), np.asarray(exp[c].values, float)
-            if gv.shape != ev.shape or np.abs(np.sort(gv) - np.sort(ev)).max() > ctol0 + 1e-12:
+            if gv.shape != ev.shape or _far(np.sort(gv), np.sort(ev), ctol0 + 1e-12):
                 return c, f"{c} differ: read {gv} written {ev}"
             idx = [int(np.abs(gv - v).argmin()) for v in ev]
             if sorted(idx) != list(range(len(ev))):
@@ -386,7 +400,7 @@ def compare_roundtrip(fmt, recipe, exp, got, _depth=0, lonlat=None):
     # ---- coordinates ------------------------------------------------------------------------
     ftol = {"swan": 5.1e-6, "octopus": 5.1e-8, "funwave": 5.1e-6}.get(base, 0.0)
     fg, fe = np.asarray(got["freq"].values, float), np.asarray(exp["freq"].values, float)
-    if np.abs(fg - fe).max() > ftol + 1e-15:
+    if fg.shape != fe.shape or _far(fg, fe, ftol + 1e-15):
         return "freq", f"frequencies differ: read {fg[:4]} written {fe[:4]}"
     order = None
     if "dir" in sdims:
@@ -398,7 +412,7 @@ def compare_roundtrip(fmt, recipe, exp, got, _depth=0, lonlat=None):
         # directions are labels: match each written direction to the read one (circular distance)
         dist = np.abs(((de[:, None] - dg[None, :]) + 180) % 360 - 180)
         order = dist.argmin(axis=1)
-        if sorted(order.tolist()) != list(range(len(dg))) or dist[np.arange(len(de)), order].max() > dtol + 1e-12:
+        if sorted(order.tolist()) != list(range(len(dg))) or not (dist[np.arange(len(de)), order].max() <= dtol + 1e-12):
             return "dir", f"directions differ: read {np.asarray(got['dir'].values)[:6]} written {np.asarray(exp['dir'].values)[:6]}"
     if "time" in lead:
         unit = "us" if recipe.get("time_unit", "ns") != "ns" else "ns"
@@ -412,14 +426,14 @@ def compare_roundtrip(fmt, recipe, exp, got, _depth=0, lonlat=None):
     ctol = {"swan": 5.1e-7, "octopus": 5.1e-7}.get(base, 0.0)
     if pos == ["lat", "lon"]:
         for c in ("lat", "lon"):
-            if np.abs(np.asarray(got[c].values, float) - np.asarray(exp[c].values, float)).max() > ctol + 1e-12:
+            if _far(np.asarray(got[c].values, float), np.asarray(exp[c].values, float), ctol + 1e-12):
                 return c, f"{c} differ: read {got[c].values} written {exp[c].values}"
     elif lonlat is not None and (pos == ["site"] or base == "octopus"):
         for c, b in (("lon", lonlat[0]), ("lat", lonlat[1])):
             if c not in got:
                 return c, f"{c} missing in what was read"
             a = np.asarray(got[c].values, float).ravel()
-            if a.shape != b.shape or np.abs(a - b).max() > ctol + 1e-12:
+            if a.shape != b.shape or _far(a, b, ctol + 1e-12):
                 return c, f"{c} of sites differ: read {a} written {b}"
     # ---- energy densities, spectrum by spectrum ---------------------------------------------
     G = np.asarray(ge.values, float)
